@@ -1137,8 +1137,8 @@ fn build_to_index_fn(variants: &[VariantEntry]) -> TokenStream {
 
 fn build_eq_checker(this: TokenStream) -> TokenStream {
     quote_spanned!(this.span()=>{
-        fn _eq<__T: ::core::cmp::Eq + ?::core::marker::Sized>(__this: &__T) { }
-        _eq(&(#this))
+        fn __assert_eq<__T: ::core::cmp::Eq + ?::core::marker::Sized>(__this: &__T) { }
+        __assert_eq(&(#this))
     })
 }
 
